@@ -119,6 +119,8 @@ def argparseTable : List (List String) :=
    ["input", "|"],
    ["output", "|"]]
 
+def reissueBody : List String := ["def _reissue_warnings(func):", "", "    def inner(*args, **kwargs):", "        warning_list = []", "        try:", "            with warnings.catch_warnings(record=True) as warning_list:", "                result = func(*args, **kwargs)", "        finally:", "            for warning in warning_list:", "                warnings.warn(warning.message, warning.category, stacklevel=2)", "        return result", "    return inner"]
+
 def cliImports : List String := [".api:dump_many:dump_many", ".api:dump_one:dump_one", ".api:load_many:load_many", ".api:load_one:load_one"]
 
 def cliRebound : List String := []
